@@ -180,6 +180,36 @@ def bit_axioms(terms):
 
     for t in terms:
         walk(t)
+    # shl applications whose shift amounts differ by a constant: pow2(a) = 2^d * pow2(b)
+    ks = []
+    seen_k = set()
+    def collect(e):
+        if e.get_id() in seen_k:
+            return
+        seen_k.add(e.get_id())
+        if z3.is_app(e):
+            if e.decl().eq(shl_f):
+                ks.append(e.arg(1))
+            elif e.decl().eq(pow2_f):
+                ks.append(e.arg(0))
+            for c in e.children():
+                collect(c)
+    for t in terms:
+        collect(t)
+    uniq = []
+    for k in ks:
+        if not any(k.eq(u) for u in uniq):
+            uniq.append(k)
+    for i, a in enumerate(uniq):
+        out.append(z3.Implies(a == 0, pow2_f(a) == 1))
+        for b in uniq[i + 1:]:
+            d = z3.simplify(a - b)
+            if z3.is_int_value(d):
+                dv = d.as_long()
+                if 0 < dv <= 64:
+                    out.append(z3.Implies(b >= 0, pow2_f(a) == (1 << dv) * pow2_f(b)))
+                elif -64 <= dv < 0:
+                    out.append(z3.Implies(a >= 0, pow2_f(b) == (1 << -dv) * pow2_f(a)))
     return out
 
 
